@@ -22,7 +22,7 @@ open Pithos Pithos.Proto Pithos.Range
 
 /-- What /repo currently does. Flip `sat` to `true` once fixes/C05-range-int64-extremes.patch is
 committed, `dropUnsat` once fixes/C05-multirange-drop-unsatisfiable.patch is. -/
-def codeCfg : Cfg := Cfg.asIs
+def codeCfg : Cfg := ⟨true, false⟩
 
 abbrev Bytes := List UInt8
 
@@ -118,7 +118,10 @@ def specNumerals : Rfc7233.RangeSpec → List Nat
 
 /-- Narrow classification of "a satisfiable request was answered 416" by the input shape. -/
 def sig416 (specs : List Rfc7233.RangeSpec) (size : Nat) : String :=
-  if specs.any (fun s => (specNumerals s).any (· > maxI64N)) then "C05.numeral-exceeds-int64-416"
+  -- a mixed list (some member unsatisfiable) explains a 416 by itself as long as the code does not
+  -- drop unsatisfiable members; only otherwise do the int64 shapes (repaired: commit 0ec6d24) apply
+  if !codeCfg.dropUnsat && specs.length ≥ 2 && specs.any (fun s => !Rfc7233.satisfiable size s) then "C05.multi-range-one-unsatisfiable-416"
+  else if specs.any (fun s => (specNumerals s).any (· > maxI64N)) then "C05.numeral-exceeds-int64-416"
   else if specs.any (fun s => match s with | .fromTo a b => b == maxI64N && a < size | _ => false) then "C05.end-maxint64-416"
   else if specs.length ≥ 2 && specs.any (fun s => !Rfc7233.satisfiable size s) then "C05.multi-range-one-unsatisfiable-416"
   else "C05.satisfiable-range-416"
